@@ -112,7 +112,7 @@ def member_class(beh):
 
 
 SCRIPTS = ("solve", "solve+model", "solve+value", "solve-push-solve", "is_sat", "solve-twice", "is_sat-add-solve",
-           "push-is_sat-pop-solve")
+           "push-is_sat-pop-solve", "push-pop0-solve", "is_sat-push-pop-solve")
 # scripts with their own configurations (see configs): assumptions; a failing second query followed by get_model
 EXTRA_SCRIPTS = ("solve-assume", "solve-failsolve-model", "failed-is_sat-then-solve")
 
@@ -156,6 +156,26 @@ def make_body(env, names, script, exit_on_exception, unsat):
                     model = p.get_model()
                     val = {"a": model.get_py_value(a), "b": model.get_py_value(b)}
                     obs["model_ok"] = bool(holds(m.And(base, a), val))
+                return obs
+            if script == "is_sat-push-pop-solve":
+                # a one-shot query (deferred pop pending) directly followed by the user's push; what is asserted
+                # inside that level is gone after the pop
+                obs = {"query": p.is_sat(a)}
+                p.push()
+                p.add_assertion(m.And(m.Not(a), m.Not(b)))
+                p.pop()
+                obs["n_assertions"] = len(p.assertions)
+                obs["verdict"] = p.solve()
+                return obs
+            if script == "push-pop0-solve":
+                # push(0) and pop(0) are legal and change nothing: the pushed assertion still counts
+                p.push()
+                p.add_assertion(m.And(m.Not(a), m.Not(b)))
+                p.push(0)
+                p.pop(0)
+                obs = {"n_assertions": len(p.assertions), "verdict": p.solve()}
+                p.pop()
+                obs["verdict2"] = p.solve()
                 return obs
             if script == "solve-assume":
                 # the query is assertions + assumptions; the assumptions do not persist
@@ -257,6 +277,10 @@ def expected(script, unsat, behs=()):
         return {"verdict": True, "verdict2": True, "model": "ok"}
     if script == "is_sat-add-solve":
         return {"query": sat, "verdict": False, "n_assertions": 2}
+    if script == "is_sat-push-pop-solve":
+        return {"query": sat, "n_assertions": 1, "verdict": sat}
+    if script == "push-pop0-solve":
+        return {"n_assertions": 2, "verdict": False, "verdict2": sat}
     if script == "push-is_sat-pop-solve":
         e = {"query": sat, "n_assertions": 1, "verdict": sat}
         if sat:
@@ -366,11 +390,11 @@ def configs(ctx):
                             continue
                         if n == 3 and script not in ("solve", "solve+model"):
                             continue
-                        two = script in ("solve-push-solve", "solve-twice", "is_sat-add-solve", "push-is_sat-pop-solve")
+                        two = script in ("solve-push-solve", "solve-twice", "is_sat-add-solve", "push-is_sat-pop-solve", "push-pop0-solve", "is_sat-push-pop-solve")
                         if q and two and (eoe or any(b in ("unknown", "exit") for b in behs)):
                             continue
                         bound = (2 if two else None) if n == 2 else 3
-                        if q and script in ("solve-push-solve", "push-is_sat-pop-solve"):
+                        if q and script in ("solve-push-solve", "push-is_sat-pop-solve", "push-pop0-solve", "is_sat-push-pop-solve"):
                             bound = 1          # three solves per run: 16 times more schedules than one solve
                         if not q and two:
                             bound = 3 if script == "solve-twice" else 2
